@@ -1,9 +1,10 @@
 from common import COMMON_TRUST
 
 PROP = {
-    "generated": ["CoopConsts"],
+    "generated": ["CoopConsts", "ConduitSrc"],
     "lean_modules": ["SwimVerif.Model.Conduit", "SwimVerif.Model.ConduitMon", "SwimVerif.Proofs.Conduit",
-                     "SwimVerif.Generated.CoopConsts"],
+                     "SwimVerif.Model.ConduitProg", "SwimVerif.Proofs.ConduitProg",
+                     "SwimVerif.Generated.CoopConsts", "SwimVerif.Generated.ConduitSrc"],
     "engines": [
         # real threads: closing either half while the other side is registering its waker (below the model's atomic steps)
         {"name": "close-race", "crate": "core", "bin": "sv-c12s", "machine": "c12s", "modes": ["monitor"],
@@ -12,18 +13,30 @@ PROP = {
          "cases": {"quick": 4000, "thorough": 400000}, "min_shard": 1000},
     ],
     "trusted_base": COMMON_TRUST + [
-        "modelled, not verified: parking_lot::Mutex (each poll is one atomic step), std::task::Waker, bytes::BytesMut",
+        "modelled, not verified: parking_lot::Mutex (critical sections are serialised), std::task::Waker, bytes::BytesMut",
+        "translator tools/extractors/c12.py: parses the function bodies of channel/mod.rs into the statement language of "
+        "Model/ConduitProg.lean (structure from the source; primitive statements and conditions recognised by exact "
+        "text, anything else fails the extraction); trusted: its tables and ConduitProg.exec give each primitive the "
+        "meaning of the Rust statement (the differential engine `conduit` checks the resulting model against the real code)",
     ],
     "level_text": "Proof: for every capacity >= 1 and every sequence of poll_read/poll_write/flush/shutdown/drop/"
                   "budget operations, an invariant proved by induction gives FIFO-prefix, boundedness, EOF after "
                   "drain, failure after close and no-lost-wake-up (+ progress) for the model of Conduit + coop "
                   "budget; the model is tied to the real byte_channel by differential execution with counting "
-                  "wakers (poll results, bytes and which waker fired, step by step).",
-    "level_note": "Trusted: Lean kernel, compiled driver, harness; modelled not verified: the mutex (polls are "
-                  "atomic), Waker, BytesMut. Real multi-threaded schedules are covered only through the "
-                  "atomicity assumption.",
+                  "wakers (poll results, bytes and which waker fired, step by step) AND by a translator: the statement structure of "
+                  "Conduit::{poll_read, poll_write, poll_flush, poll_shutdown, read, write, wake, close_channel}, of the coop "
+                  "wrappers of both halves and of both Drop impls is regenerated from channel/mod.rs on every run "
+                  "(Generated/ConduitSrc.lean) and C12_source_is_model proves that executing it is exactly the model's step, "
+                  "for every state and argument; C12_source_single_critical_section proves from the same programs that each "
+                  "operation takes the mutex at most once and touches the shared state only under it.",
+    "level_note": "Trusted: Lean kernel, compiled driver, harness, the translator's vocabulary tables; modelled not "
+                  "verified: the mutex (serialises critical sections), Waker, BytesMut. That one poll is one critical "
+                  "section is extracted from the source and proved (C12_source_single_critical_section); real "
+                  "multi-threaded schedules then reduce to sequences of atomic steps only through the mutex's "
+                  "mutual exclusion, which is trusted and sampled by the close-race engine. The non-coop cfg twins "
+                  "of the wrappers are not translated (the coop feature is on in every build of this repository).",
     "assumptions": [
-        "each poll of either half runs atomically under the channel mutex",
+        "parking_lot::Mutex gives mutual exclusion (each poll is proved to be a single critical section of it)",
         "one task per half (the waker passed by a half is always that task's waker)",
     ],
 }
